@@ -62,6 +62,8 @@ def _chain(loop):
 )
 def r10_1(ctx, rep):
     R = "R10.1"
+    # (a table-driven first-match loop — for prefix, category in (("constant", constants), ...): if ...: ...; break / else: ... — has been unrolled
+    # into the if/elif chain it stands for by the engine's normaliser)
     fn = ctx.func(GEN, "Generator.exitClass", R)
     loop = None
     for n in walk_local(fn):
